@@ -64,8 +64,15 @@ extern "C" void vs_note(const char* key, const char* value){
   if (manifest) { fprintf(manifest, "{\"kind\":\"note\",\"key\":\"%s\",\"value\":\"%s\"}\n", jsesc(key).c_str(), jsesc(value).c_str()); fflush(manifest); }
 }
 static mpq_class from_double(double d){ if (!(d == d) || std::isinf(d)) vs_error("NaN/inf constant in exact domain"); mpq_class q(d); return q; }
-extern "C" vr64 vs_const_bits64(uint64_t bits){ double d; memcpy(&d, &bits, 8); return mkconst(from_double(d), 64); }
-extern "C" vr32 vs_const_bits32(uint32_t bits){ float f; memcpy(&f, &bits, 4); return mkconst(from_double((double)f), 32); }
+static uint32_t mkbits(uint64_t bits, int width){   // UF mode: a constant is an opaque leaf identified by its bit pattern
+  if (bits == 0) return 0;                           // +0.0 of either width == zeroed memory == handle 0
+  Node n; n.k = K_CONST; n.width = width; n.cmpdom = 0; n.name = "b" + std::to_string(bits);
+  double d; if (width == 64) memcpy(&d, &bits, 8); else { float f; uint32_t b32 = (uint32_t)bits; memcpy(&f, &b32, 4); d = f; }
+  if (d == d && !std::isinf(d)) { n.val = mpq_class(d); n.cmpdom = 1; n.point = true; n.lo = n.hi = n.val; }
+  return mk(n, "k" + std::to_string(bits) + "w" + std::to_string(width));
+}
+extern "C" vr64 vs_const_bits64(uint64_t bits){ if (UF) return mkbits(bits, 64); double d; memcpy(&d, &bits, 8); return mkconst(from_double(d), 64); }
+extern "C" vr32 vs_const_bits32(uint32_t bits){ if (UF) return mkbits(bits, 32); float f; memcpy(&f, &bits, 4); return mkconst(from_double((double)f), 32); }
 extern "C" vr64 vs_q(long num, long den){ mpq_class q(num, den); q.canonicalize(); return mkconst(q, 64); }
 extern "C" vr64 vs_qstr(const char* s){
   std::string t(s); mpq_class q;
@@ -103,6 +110,11 @@ extern "C" vr64 vs_bin(int op, int width, vr64 a_, vr64 b_){
   if (T[a].k == K_POISON || T[b].k == K_POISON) return 1;
   Node& x = N(a); Node& y = N(b);
   if (UF) {
+    if (op == 1 && b == 0) return a;                          // x - (+0.0) == x exactly in IEEE arithmetic (also for x == -0.0)
+    if (op == 2) {                                            // 1.0 * x == x exactly in IEEE arithmetic (compilers fold it)
+      auto is_one = [&](uint32_t h){ Node& n = T[h]; return n.k == K_CONST && n.cmpdom == 1 && n.val == 1; };
+      if (is_one(a)) return b; if (is_one(b)) return a;
+    }
     if ((op == 0 || op == 2) && a > b) std::swap(a, b);      // IEEE add/mul commute
     Node n; n.k = K_UF; n.name = std::string(OPN[op]) + std::to_string(width); n.a = a; n.b = b; n.width = width;
     return mk(n, "u" + n.name + "," + std::to_string(a) + "," + std::to_string(b));
@@ -149,6 +161,9 @@ extern "C" vr64 vs_un(int op, int width, vr64 a_){
   vs_error("unsupported unary float operation on a symbolic value"); return 0;
 }
 extern "C" vr64 vs_itofp(int is_signed, int width, int64_t v){
+  if (UF) { double d = is_signed ? (double)v : (double)(uint64_t)v; uint64_t b;
+    if (width == 64) memcpy(&b, &d, 8); else { float f = is_signed ? (float)v : (float)(uint64_t)v; uint32_t b32; memcpy(&b32, &f, 4); b = b32; }
+    return mkbits(b, width); }
   mpq_class q; if (is_signed) q = mpq_class((long)v); else q = mpq_class((unsigned long)(uint64_t)v);
   return mkconst(q, width);
 }
@@ -195,7 +210,7 @@ static std::string smtname(const std::string& n){ return "|" + n + "|"; }
 static std::string refname(uint32_t h){
   Node& n = T[h];
   if (n.k == K_VAR) return smtname(n.name);
-  if (n.k == K_CONST) { if (!UF) return qsmt(n.val); return "|k" + n.val.get_str() + "w" + std::to_string(n.width) + "|"; }
+  if (n.k == K_CONST) { if (!UF) return qsmt(n.val); return h == 0 ? std::string("|zero|") : "|k" + (n.name.empty() ? n.val.get_str() : n.name) + "w" + std::to_string(n.width) + "|"; }
   return "t" + std::to_string(h);
 }
 static void collect(uint32_t h, std::set<uint32_t>& seen, std::vector<uint32_t>& order){
@@ -258,6 +273,14 @@ extern "C" void vs_prove_eq(vr64 a_, vr64 b_, const char* label){
   uint32_t a = H_(a_), b = H_(b_);
   if (T[a].k == K_POISON || T[b].k == K_POISON) {   // the proved output depends on uninitialised memory
     if (manifest) { fprintf(manifest, "{\"kind\":\"poison\",\"label\":\"%s\",\"case\":\"%s\"}\n", jsesc(label).c_str(), jsesc(curcase).c_str()); fflush(manifest); }
+    return;
+  }
+  if (UF && a == b) {
+    // both paths produced the very same hash-consed node: congruence is decided by construction; the residual
+    // obligation handed to the solver is the reflexive one over an opaque constant standing for that term
+    std::set<uint32_t> seen0; std::vector<uint32_t> order0; collect(a, seen0, order0);
+    std::string s0 = "(set-logic QF_UF)\n(declare-sort V 0)\n(declare-const t" + std::to_string(a) + " V)\n(assert (not (= t" + std::to_string(a) + " t" + std::to_string(a) + ")))\n(check-sat)\n";
+    write_query(s0, label, "eq-trivial", order0.size());
     return;
   }
   std::set<uint32_t> seen; std::vector<uint32_t> order; collect(a, seen, order); collect(b, seen, order);
@@ -326,7 +349,7 @@ static std::string show_rec(uint32_t h, int depth){
   Node& n = T[h];
   if (n.k == K_CONST) return n.val.get_str();
   if (n.k == K_VAR) return n.name;
-  if (depth > 3) return "t" + std::to_string(h);
+  if (depth > (getenv("VS_DEBUG") ? 12 : 3)) return "t" + std::to_string(h);
   if (n.k == K_UF) return n.name + "(" + show_rec(n.a, depth + 1) + (n.b != 0xffffffffu ? "," + show_rec(n.b, depth + 1) : "") + ")";
   if (n.k == K_NEG) return "-(" + show_rec(n.a, depth + 1) + ")";
   const char* o = n.k == K_ADD ? "+" : n.k == K_SUB ? "-" : n.k == K_MUL ? "*" : "/";
